@@ -166,7 +166,10 @@ DIFF_BYTES = [0, 10, 13, 32, 35, 46, 43, 45, 64, 255, 254, 97, 0x25, 0x15]
 
 
 def gen_diff_bytes(rng, enc):
-    if enc and rng.chance(0.7):
+    if enc in ('utf-16', 'utf-32') and rng.chance(0.15):
+        # a hunk from the middle of a file: no byte order mark
+        body = gen_text(rng, enc, 8).encode(enc + '-le')
+    elif enc and rng.chance(0.7):
         body = gen_text(rng, enc, 8).encode(enc)
     else:
         body = bytes(rng.choice(DIFF_BYTES)
